@@ -154,8 +154,9 @@ func vc_C04_polygon_dist() { // quick: the unit square, 12 seeded cells of the 3
 	vfPolyDist(1, grid, (c*3+vfSeed()%3)%(grid*grid))
 }
 
+// thorough: two polygons (triangle, unit square), every cell (the L shape and beyond take hours in fork mode)
 func vt_C04_polygon_dist_all() {
-	k := vfCase("poly", 3)
+	k := vfCase("poly", 2)
 	grid := 6
 	vfPolyDist(k, grid, vfCase("cell", grid*grid))
 }
